@@ -41,30 +41,41 @@ theorem C10_live_holder_excludes (f : FSys) (fop : FOp) (op : Op) (hc : fop.call
     (hheld : f.t.s.disk.marker = true) (hl : op.takesLock = true) :
     ((stepF f fop).2 = .res (.err .lockTimeout) ∨ (stepF f fop).2 = .res .noHandle ∨ (stepF f fop).2 = .busy) ∧
     (stepF f fop).1 = f := by
+  have hnb : (decide (op = .breakMarker) && f.pending.isSome) = false := by
+    have : op ≠ .breakMarker := by intro e; subst e; cases hl
+    simp [this]
   cases hb : f.busy op
   · cases fop with
     | stallEnd => cases hc
     | failWrite op' k =>
       cases hc
-      rcases failT_locked_out f.t op k hheld hl with h | h <;> simp [stepF, FOp.call, hb, h]
+      rcases failT_locked_out f.t op k hheld hl with h | h <;> simp [stepF, FOp.call, hb, hnb, h]
     | stallBegin op' k =>
       cases hc
-      rcases stallBeginF_locked_out f op k hheld hl with h | h <;> simp [stepF, FOp.call, hb, h]
+      rcases stallBeginF_locked_out f op k hheld hl with h | h <;> simp [stepF, FOp.call, hb, hnb, h]
     | base top =>
+      have hs : stepF f (.base top) = ({ f with t := (stepT f.t top).1 }, FRes.ofT (stepT f.t top).2) := by
+        simp [stepF, hc, hb, hnb]
+      rw [hs]
       cases top with
       | crash op' k g torn =>
         cases hc
-        rcases crashT_locked_out f.t op k g torn hheld hl with h | h <;> simp [stepF, FOp.call, hb, h, stepT, FRes.ofT]
+        rcases crashT_locked_out f.t op k g torn hheld hl with h | h <;> simp [h, stepT, FRes.ofT]
       | api op' =>
         cases hc
-        have hnb : op ≠ .breakMarker := by intro e; subst e; cases hl
-        have hs : stepF f (.base (.api op)) = ({ f with t := (stepT f.t (.api op)).1 }, FRes.ofT (stepT f.t (.api op)).2) := by
-          cases op <;> first | (exact absurd rfl hnb) | simp [stepF, FOp.call, hb]
-        rw [hs]
         rcases apiT_locked_out f.t op hheld hl with h | h <;> simp [stepT, h, FRes.ofT]
   · have hs : stepF f fop = (f, .busy) := by simp [stepF, hc, hb]
     rw [hs]
     exact ⟨Or.inr (Or.inr rfl), rfl⟩
+
+/-- … and the hypothesis "the lock file is present" holds as long as the call is parked: after EVERY history of API calls,
+    kills, failing writes and stalls from `Cluster.create` on, a parked call's lock file is present (nobody removes it: the
+    lock library's removal of stale markers does not apply to the marker of a live holder, and no code path of
+    `cluster.py` deletes a lock file it did not create). -/
+theorem C10_parked_call_keeps_lock (host : Host) (spec : List (List JobId × Bool)) (brk : Bool) (ops : List FOp) :
+    (execF (FSys.ofT (TSys.ofSys (create host spec brk))) ops).pending.isSome = true →
+    (execF (FSys.ofT (TSys.ofSys (create host spec brk))) ops).t.s.disk.marker = true :=
+  execF_held ops _ (fun h => by cases h)
 
 /-- A parked call really holds the lock: `stallBegin` leaves the lock file present whenever it parks. -/
 theorem C10_stalled_call_holds_lock (f : FSys) (op : Op) (k : Nat) (hs : (stallBeginF f op k).2 = .stalled) :
